@@ -1,16 +1,16 @@
 (* A string literal without escapes denotes exactly its text: every valid UTF-8 body that
-   contains no backslash, no straight quote and no closing curly quote is a written body whose
-   value is itself. *)
+   contains no backslash, no straight quote and - only when the literal was opened by a curly
+   quote - no closing curly quote is a written body whose value is itself. *)
 From Xeh Require Import Model.Prelude Model.Bits Model.Cell Model.Lexer Model.Fmt.
 From Xeh Require Import Proofs.LexLoc Proofs.LexBasic Proofs.LexNext Proofs.LexAll Proofs.LexPrintInt Proofs.LexStr.
 From Coq Require Import ZifyBool ZifyNat ZifyN.
 Local Open Scope string_scope.
 
-Fixpoint plain_text (s : string) : bool :=
+Fixpoint plain_text (curly : bool) (s : string) : bool :=
   match s with
   | "" => true
   | String c r =>
-    negb (byte_of c =? 92)%N && negb (byte_of c =? 34)%N && negb (starts_rdq s) && plain_text r
+    negb (byte_of c =? 92)%N && negb (byte_of c =? 34)%N && negb (curly && starts_rdq s) && plain_text curly r
   end.
 
 (* the items of a text without escapes: three-byte groups at E2, single bytes elsewhere *)
@@ -29,17 +29,17 @@ Fixpoint text_items (s : string) : list sitem :=
 Lemma cont_plain c : is_cont c = true -> plain_byte c = true.
 Proof. unfold is_cont, plain_byte. lia. Qed.
 
-Lemma text_items_spec : forall n s need, String.length s <= n ->
-  valid_go s need = true -> plain_text s = true ->
-  forallb sitem_ok (text_items s) = true /\ sitems_text (text_items s) = s /\ sitems_value (text_items s) = s.
+Lemma text_items_spec : forall curly n s need, String.length s <= n ->
+  valid_go s need = true -> plain_text curly s = true ->
+  forallb (sitem_ok curly) (text_items s) = true /\ sitems_text (text_items s) = s /\ sitems_value (text_items s) = s.
 Proof.
-  induction n as [|n IH]; intros s need Hn Hv Hp.
+  intros curly. induction n as [|n IH]; intros s need Hn Hv Hp.
   - destruct s; [repeat split|cbn [String.length] in Hn; lia].
   - destruct s as [|c r]; [repeat split|]. cbn [String.length] in Hn.
     cbn [plain_text] in Hp. apply andb_prop in Hp. destruct Hp as [Hp Hpr].
     apply andb_prop in Hp. destruct Hp as [Hp H3]. apply andb_prop in Hp. destruct Hp as [H1 H2].
     assert (Single : (byte_of c =? 226)%N = false -> forall k, valid_go r k = true ->
-              forallb sitem_ok (SByte c :: text_items r) = true /\
+              forallb (sitem_ok curly) (SByte c :: text_items r) = true /\
               sitems_text (SByte c :: text_items r) = String c r /\
               sitems_value (SByte c :: text_items r) = String c r).
     { intros E k Hk. destruct (IH r k ltac:(lia) Hk Hpr) as (I1 & I2 & I3).
@@ -68,20 +68,20 @@ Proof.
 Qed.
 
 (* a literal without escapes: the value is the text between the quotes *)
-Lemma lex_next_plain_string l qo s qc rest :
-  is_opener qo -> is_closer qc -> valid_utf8 s = true -> plain_text s = true ->
+Lemma lex_next_plain_string l curly qo s qc rest :
+  is_opener curly qo -> is_closer curly qc -> valid_utf8 s = true -> plain_text curly s = true ->
   lrest l = qo ++ s ++ qc ++ rest ->
   let p' := lpos l + String.length qo + String.length s + String.length qc in
   lex_next l = (if next_is_ws_or_end rest then TLit (CStr s) else TErr PExpectWs (lpos l) p',
                 mklex rest p' (lpos l) (llen l)).
 Proof.
   intros Ho Hc Hv Hp Hl p'.
-  destruct (text_items_spec (String.length s) s 0 (le_n _) Hv Hp) as (I1 & I2 & I3).
-  rewrite <- I2 in Hl. rewrite (lex_next_string l qo (text_items s) qc rest Ho Hc I1 Hl).
+  destruct (text_items_spec curly (String.length s) s 0 (le_n _) Hv Hp) as (I1 & I2 & I3).
+  rewrite <- I2 in Hl. rewrite (lex_next_string l curly qo (text_items s) qc rest Ho Hc I1 Hl).
   cbv zeta. rewrite I2, I3. reflexivity.
 Qed.
 
-Lemma lex_string_plain_string s : valid_utf8 s = true -> plain_text s = true ->
+Lemma lex_string_plain_string s : valid_utf8 s = true -> plain_text false s = true ->
   let txt := dq ++ s ++ dq in
   lex_string txt = [(TLit (CStr s), 0, String.length txt); (TEnd, String.length txt, String.length txt)].
 Proof.
@@ -89,7 +89,158 @@ Proof.
   assert (Hl : lrest (lex_new txt) = dq ++ s ++ dq ++ "") by reflexivity.
   assert (El : String.length txt = String.length s + 2).
   { subst txt. rewrite !app_length_s. change (String.length dq) with 1. lia. }
-  rewrite (lex_next_plain_string (lex_new txt) dq s dq "" (or_introl eq_refl) (or_introl eq_refl) Hv Hp Hl).
+  rewrite (lex_next_plain_string (lex_new txt) false dq s dq "" eq_refl (or_introl eq_refl) Hv Hp Hl).
   cbv zeta. unfold lex_new. cbn [next_is_ws_or_end lpos llen]. change (String.length dq) with 1.
   replace (0 + 1 + String.length s + 1) with (String.length txt) by lia. reflexivity.
+Qed.
+
+(* ---------- straight-opened literals: the closing curly quote is an ordinary character ---------- *)
+
+(* no backslash and no straight quote: the only condition on the body of a straight-opened
+   literal without escapes; curly quotes of either kind (any number of them) are allowed *)
+Fixpoint no_backslash_no_quote (s : string) : bool :=
+  match s with
+  | "" => true
+  | String c r => negb (byte_of c =? 92)%N && negb (byte_of c =? 34)%N && no_backslash_no_quote r
+  end.
+
+Lemma plain_text_straight : forall s, plain_text false s = no_backslash_no_quote s.
+Proof.
+  induction s as [|c r IH]; [reflexivity|]. cbn [plain_text no_backslash_no_quote andb negb].
+  rewrite IH, andb_true_r. reflexivity.
+Qed.
+
+(* for a curly-opened literal the closing curly quote must be absent as well *)
+Lemma plain_text_curly_straight : forall s, plain_text true s = true -> plain_text false s = true.
+Proof.
+  induction s as [|c r IH]; [reflexivity|]. cbn [plain_text andb negb]. intros H.
+  apply andb_prop in H. destruct H as [H Hr]. apply andb_prop in H. destruct H as [H _].
+  rewrite H, (IH Hr). reflexivity.
+Qed.
+
+Lemma no_backslash_no_quote_app a b :
+  no_backslash_no_quote (a ++ b) = no_backslash_no_quote a && no_backslash_no_quote b.
+Proof.
+  induction a as [|c a IH]; [reflexivity|]. cbn [append no_backslash_no_quote]. rewrite IH.
+  rewrite !andb_assoc. reflexivity.
+Qed.
+
+Lemma valid_go_app : forall a need b, valid_go a need = true -> valid_go (a ++ b) need = valid_go b 0.
+Proof.
+  induction a as [|c a IH]; intros need b H.
+  - cbn [valid_go] in H. apply Nat.eqb_eq in H. subst need. reflexivity.
+  - cbn [append valid_go] in *. destruct need as [|k]; apply andb_prop in H; destruct H as [H1 H2];
+      rewrite H1, (IH _ b H2); reflexivity.
+Qed.
+
+Lemma valid_utf8_app a b : valid_utf8 a = true -> valid_utf8 b = true -> valid_utf8 (a ++ b) = true.
+Proof. unfold valid_utf8. intros Ha Hb. rewrite (valid_go_app a 0 b Ha). exact Hb. Qed.
+
+(* Lex::next on a straight-opened literal without escapes, any state, any continuation *)
+Lemma lex_next_straight_string l s rest :
+  valid_utf8 s = true -> no_backslash_no_quote s = true ->
+  lrest l = dq ++ s ++ dq ++ rest ->
+  let p' := lpos l + String.length s + 2 in
+  lex_next l = (if next_is_ws_or_end rest then TLit (CStr s) else TErr PExpectWs (lpos l) p',
+                mklex rest p' (lpos l) (llen l)).
+Proof.
+  intros Hv Hp Hl p'. rewrite <- plain_text_straight in Hp.
+  rewrite (lex_next_plain_string l false dq s dq rest eq_refl (or_introl eq_refl) Hv Hp Hl).
+  cbv zeta. subst p'. change (String.length dq) with 1.
+  replace (lpos l + 1 + String.length s + 1) with (lpos l + String.length s + 2) by lia. reflexivity.
+Qed.
+
+(* the whole text "s": one literal whose value is s *)
+Lemma lex_string_straight_string s : valid_utf8 s = true -> no_backslash_no_quote s = true ->
+  let txt := dq ++ s ++ dq in
+  lex_string txt = [(TLit (CStr s), 0, String.length txt); (TEnd, String.length txt, String.length txt)].
+Proof.
+  intros Hv Hp. apply lex_string_plain_string; [exact Hv|]. rewrite plain_text_straight. exact Hp.
+Qed.
+
+(* in particular: curly quotes of either kind anywhere in the body *)
+Lemma lex_string_straight_curly_inside a q b :
+  valid_utf8 a = true -> valid_utf8 b = true ->
+  no_backslash_no_quote a = true -> no_backslash_no_quote b = true -> q = rdq \/ q = ldq ->
+  let s := a ++ q ++ b in
+  let txt := dq ++ s ++ dq in
+  lex_string txt = [(TLit (CStr s), 0, String.length txt); (TEnd, String.length txt, String.length txt)].
+Proof.
+  intros Ha Hb Na Nb Hq s. apply lex_string_straight_string.
+  - subst s. apply valid_utf8_app; [exact Ha|]. apply valid_utf8_app; [|exact Hb].
+    destruct Hq as [->| ->]; reflexivity.
+  - subst s. rewrite !no_backslash_no_quote_app, Na, Nb. destruct Hq as [->| ->]; reflexivity.
+Qed.
+
+(* a straight-opened literal whose only closing quote is a curly one is unterminated *)
+Lemma lex_string_straight_curly_close s : valid_utf8 s = true -> no_backslash_no_quote s = true ->
+  let txt := dq ++ s ++ rdq in
+  lex_string txt = [(TErr PUntermStr (String.length txt) (String.length txt), 0, String.length txt)].
+Proof.
+  intros Hv Hp txt.
+  assert (Hv' : valid_utf8 (s ++ rdq) = true) by (apply valid_utf8_app; [exact Hv|reflexivity]).
+  assert (Hp' : plain_text false (s ++ rdq) = true).
+  { rewrite plain_text_straight, no_backslash_no_quote_app, Hp. reflexivity. }
+  destruct (text_items_spec false (String.length (s ++ rdq)) (s ++ rdq) 0 (le_n _) Hv' Hp') as (I1 & I2 & I3).
+  assert (Hl : lrest (lex_new txt) = dq ++ sitems_text (text_items (s ++ rdq))) by (rewrite I2; reflexivity).
+  pose proof (lex_next_string_unterminated (lex_new txt) false dq _ eq_refl I1 Hl) as Hn.
+  cbv zeta in Hn. rewrite I2 in Hn. unfold lex_new in Hn. cbn [lpos llen] in Hn.
+  change (String.length dq) with 1 in Hn.
+  assert (El : String.length txt = 0 + 1 + String.length (s ++ rdq)) by (subst txt; reflexivity).
+  rewrite <- El in Hn.
+  rewrite lex_string_from.
+  rewrite (lex_from_final txt 0 (String.length txt) _ _ Hn eq_refl). reflexivity.
+Qed.
+
+(* ---------- the quote rule, spelled out ---------- *)
+
+Definition rdq_item : sitem := SE2 (ascii_of_N 128) (ascii_of_N 157).
+
+Lemma quotes_spec :
+  (forall q, is_opener false q <-> q = dq) /\ (forall q, is_opener true q <-> q = ldq) /\
+  (forall q, is_closer false q <-> q = dq) /\ (forall q, is_closer true q <-> (q = dq \/ q = rdq)).
+Proof.
+  split; [intros q; reflexivity|]. split; [intros q; reflexivity|]. split; intros q; split.
+  - intros [H|[H _]]; [exact H|discriminate].
+  - intros H. left. exact H.
+  - intros [H|[_ H]]; [left; exact H|right; exact H].
+  - intros [H|H]; [left; exact H|right; split; [reflexivity|exact H]].
+Qed.
+
+(* the closing curly quote as an item: allowed in the body of a straight-opened literal only;
+   every other item is allowed in both kinds of literal alike *)
+Lemma rdq_item_spec :
+  sitem_text rdq_item = rdq /\ sitem_value rdq_item = rdq /\
+  sitem_ok false rdq_item = true /\ sitem_ok true rdq_item = false /\
+  (forall i, sitem_ok true i = true -> sitem_ok false i = true) /\
+  (forall i, sitem_ok false i = true -> i <> rdq_item -> sitem_ok true i = true).
+Proof.
+  split; [reflexivity|]. split; [reflexivity|]. split; [reflexivity|]. split; [reflexivity|]. split.
+  - intros [c|c1 c2|c]; cbn [sitem_ok andb negb]; auto.
+    intros H. apply andb_prop in H. destruct H as [H _]. rewrite H. reflexivity.
+  - intros [c|c1 c2|c]; cbn [sitem_ok andb negb]; auto.
+    intros H Hne. rewrite andb_true_r in H. rewrite H. cbn [andb].
+    destruct ((byte_of c1 =? 128)%N && (byte_of c2 =? 157)%N) eqn:E; [|reflexivity].
+    exfalso. apply Hne. apply andb_prop in E. destruct E as [E1 E2].
+    apply N.eqb_eq, byte_of_inj in E1. apply N.eqb_eq, byte_of_inj in E2. subst c1 c2. reflexivity.
+Qed.
+
+(* [no_backslash_no_quote] says what its name says *)
+Lemma no_backslash_no_quote_spec : forall s,
+  no_backslash_no_quote s = true <->
+  (forall i c, String.get i s = Some c -> c <> "\"%char /\ c <> """"%char).
+Proof.
+  induction s as [|c r IH]; cbn [no_backslash_no_quote].
+  - split; [intros _ i x H; destruct i; discriminate|reflexivity].
+  - split.
+    + intros H. apply andb_prop in H. destruct H as [H Hr]. apply andb_prop in H. destruct H as [H1 H2].
+      intros i x Hg. destruct i as [|i]; cbn [String.get] in Hg.
+      * injection Hg as <-. split; intros ->; discriminate.
+      * exact (proj1 IH Hr i x Hg).
+    + intros H. apply andb_true_intro. split; [apply andb_true_intro; split|].
+      * destruct (byte_of c =? 92)%N eqn:E; [|reflexivity].
+        apply N.eqb_eq, byte_of_inj in E. destruct (H 0 c eq_refl) as [A _]. exfalso. apply A. exact E.
+      * destruct (byte_of c =? 34)%N eqn:E; [|reflexivity].
+        apply N.eqb_eq, byte_of_inj in E. destruct (H 0 c eq_refl) as [_ A]. exfalso. apply A. exact E.
+      * apply (proj2 IH). intros i x Hg. exact (H (S i) x Hg).
 Qed.
